@@ -14,6 +14,22 @@ HARD = [1.0, 0.5, -3.5, 1e-7, 0.1234567891234567, 1e20, 5e-324, 9007199254740993
         123456.789012345, 1.0 / 3.0, 2.5e-10, 7.0, 1e-300, 33.0, -1e-9, 1234567.0]
 
 
+# every magnitude class once more, explicitly (used by the per-value products): subnormal, tiny, below 1e-8,
+# around the %f / %g / isclose thresholds, 17 significant digits, exponent notation both ways, huge
+EXTRA = [1e-8, 3e-9, 9.999999e-7, 1e-6, 1.0000001e-6, 1e-5, 1e-16, 2.2250738585072014e-308, 4.9e-324,
+         1e15, 1e16, 2.5e+17, 1.7976931348623157e308, 0.30000000000000004, 100000.0, 123456789.123456789,
+         6.02214076e23, 1e22, 1e23, 0.1, 2.0 ** -1074, 2.0 ** 53, 2.0 ** 53 + 2]
+
+
+def all_values():
+    vals = []
+    for v in HARD + EXTRA:
+        for x in (v, -v):
+            if x not in vals:
+                vals.append(x)
+    return vals
+
+
 def shapes(tier):
     return QUICK_SHAPES if tier == 'quick' else THOROUGH_SHAPES
 
@@ -125,7 +141,10 @@ def build(spec):
     from biom import Table
     shape = tuple(spec['shape'])
     pool = {'hard': HARD, 'ops': OPS_POOL, 'int': INT_POOL}[spec.get('pool', 'hard')]
-    D = np.array(matrix(shape, spec['mask'], spec.get('rot', 0), pool), dtype=float).reshape(shape)
+    if 'vals' in spec:       # explicit cell values (row-major) instead of mask/pool
+        D = np.array(spec['vals'], dtype=float).reshape(shape)
+    else:
+        D = np.array(matrix(shape, spec['mask'], spec.get('rot', 0), pool), dtype=float).reshape(shape)
     oids = ids_for(spec.get('obs_style', 'plain'), 'observation', shape[0])
     sids = ids_for(spec.get('samp_style', 'plain'), 'sample', shape[1])
     omd = md_for(spec.get('obs_md', 'none'), 'observation', shape[0])
